@@ -124,7 +124,8 @@ func (p *Path) nilness(v ssa.Value, upto int) (isNil, known bool) {
 	switch x := v.(type) {
 	case *ssa.Const:
 		return x.Value == nil, x.Value == nil
-	case *ssa.MakeInterface, *ssa.Alloc, *ssa.MakeClosure, *ssa.MakeMap, *ssa.MakeSlice:
+	}
+	if freshNonNil(v) {
 		return false, true
 	}
 	for i := upto - 1; i >= 0; i-- {
@@ -756,21 +757,12 @@ func (p *Path) ReturnsNilError() (isNil, known bool) {
 			}
 		}
 	}
-	switch x := v.(type) {
-	case *ssa.MakeInterface:
+	if freshNonNil(v) {
+		// includes package-level error sentinels (var ErrX = errors.New(...))
 		return false, true
-	case *ssa.UnOp:
-		// a package-level error sentinel (var ErrX = errors.New(...)) is non-nil
-		if g, ok := x.X.(*ssa.Global); ok && x.Op == token.MUL && strings.HasPrefix(g.Name(), "Err") {
-			return false, true
-		}
+	}
+	switch x := v.(type) {
 	case *ssa.Call:
-		if sc := x.Call.StaticCallee(); sc != nil && sc.Pkg != nil {
-			switch sc.Pkg.Pkg.Path() + "." + sc.Name() {
-			case "errors.New", "fmt.Errorf":
-				return false, true
-			}
-		}
 		if x.Call.IsInvoke() && x.Call.Method.Name() == "Err" && x.Call.Method.Pkg() != nil && x.Call.Method.Pkg().Path() == "context" {
 			// ctx.Err() after <-ctx.Done() is non-nil
 			return false, true
